@@ -42,6 +42,9 @@ pub struct Knobs {
     /// every TLV of a response gets 0..=this extra length octets (drawn from the scenario seed)
     pub lenform_extra_max: usize,
     pub lenform_seed: u64,
+    /// the peer stops reading: once this many request bytes were accepted, writes pend for this many ms
+    #[serde(default)]
+    pub write_stall: Option<(usize, u64)>,
 }
 
 impl Default for Knobs {
@@ -59,6 +62,7 @@ impl Default for Knobs {
             server_closes_on_unbind: true,
             lenform_extra_max: 0,
             lenform_seed: 0,
+            write_stall: None,
         }
     }
 }
@@ -148,6 +152,8 @@ pub enum Step {
     Finish { slot: usize },
     State { slot: usize },
     DropStream { slot: usize },
+    /// `stream.ldap_handle().abandon(stream.ldap_handle().last_id())` - abandon the search through its own handle
+    StreamAbandon { slot: usize },
     /// drop this client's `Ldap` handle (streams keep theirs)
     DropHandle,
     /// wait until the whole system is quiescent; the executor snapshots the tables
